@@ -193,7 +193,9 @@ def _min_error_dual(
     problem.set_objective("min", picos.trace(y_var))
     solution = problem.solve(solver=solver, primals=None, **kwargs)
 
-    measurements = [problem.get_constraint(k).dual for k in range(n)]
+    # PICOS reports the dual of a complex LMI with respect to the pairing Tr(Z^T X), so the measurement operators
+    # (which pair with the states as Tr(M X)) are the complex conjugates of the reported dual values.
+    measurements = [problem.get_constraint(k).dual.H.T for k in range(n)]
 
     return solution.value, measurements
 
